@@ -15,6 +15,7 @@ import (
 	"fmt"
 	"net/http"
 	"strings"
+	"sync"
 	"time"
 
 	jc "github.com/SermoDigital/jose/crypto"
@@ -78,7 +79,11 @@ func (cfg Config) LogFields() log.Fields {
 }
 
 type hook struct {
-	cfg        Config
+	cfg Config
+
+	// keysMu guards publicKeys, which the periodic refresh replaces while
+	// announces are being validated.
+	keysMu     sync.RWMutex
 	publicKeys map[string]crypto.PublicKey
 	closing    chan struct{}
 }
@@ -137,7 +142,9 @@ func (h *hook) updateKeys() error {
 		}
 		keys[parsedJWK.Kid] = publicKey
 	}
+	h.keysMu.Lock()
 	h.publicKeys = keys
+	h.keysMu.Unlock()
 
 	log.Debug("successfully fetched JWK Set")
 	return nil
@@ -168,7 +175,11 @@ func (h *hook) HandleAnnounce(ctx context.Context, req *bittorrent.AnnounceReque
 		return ctx, ErrMissingJWT
 	}
 
-	if err := validateJWT(req.InfoHash, []byte(jwtParam), h.cfg.Issuer, h.cfg.Audience, h.publicKeys); err != nil {
+	h.keysMu.RLock()
+	publicKeys := h.publicKeys
+	h.keysMu.RUnlock()
+
+	if err := validateJWT(req.InfoHash, []byte(jwtParam), h.cfg.Issuer, h.cfg.Audience, publicKeys); err != nil {
 		return ctx, ErrInvalidJWT
 	}
 
@@ -232,9 +243,10 @@ func validateJWT(ih bittorrent.InfoHash, jwtBytes []byte, cfgIss, cfgAud string,
 		return errors.New("signed by unknown kid")
 	}
 
-	err = parsedJWS.Verify(publicKey, jc.SigningMethodRS256)
+	// Validate verifies the signature and the exp and nbf claims.
+	err = parsedJWT.Validate(publicKey, jc.SigningMethodRS256)
 	if err != nil {
-		log.Debug("failed to verify signature of JWT", log.Err(err))
+		log.Debug("failed to verify signature or validity period of JWT", log.Err(err))
 		return err
 	}
 
